@@ -73,10 +73,13 @@ func (f *Func) Init(raw string) error {
 	if f.Complete, err = url.QueryUnescape(raw); err != nil {
 		return fmt.Errorf("bad function reference: %w", err)
 	}
-	// Update the index in the unescaped string.
-	endPkg += len(f.Complete) - len(raw)
 	if endPkg != -1 {
-		f.ImportPath = f.Complete[:endPkg]
+		// Only the path part is escaped; unescape it on its own so the index of
+		// its end stays valid in the unescaped string.
+		if f.ImportPath, err = url.QueryUnescape(raw[:endPkg]); err != nil {
+			return fmt.Errorf("bad function reference: %w", err)
+		}
+		endPkg = len(f.ImportPath)
 	}
 	f.Name = f.Complete[endPkg+1:]
 	if idx := strings.LastIndexByte(f.Name, ' '); idx > -1 {
